@@ -1,7 +1,7 @@
 (* Property C14 — messages arrive within the configured latency window, in
    order on equal latency.  Statements only; proofs in C14_proofs.v. *)
 From TV.Lib Require Import Base.
-From TV.Link Require Import Model Facts C08_proofs C14_proofs Gen.
+From TV.Link Require Import Model Facts C08_proofs C14_proofs C14_e2e Gen.
 Open Scope N_scope.
 
 (* Every sampled delay lies in the effective latency range of the link, for
@@ -82,6 +82,33 @@ Theorem c14_delivered : forall g es x,
   (mass x (fin (run g init es)) + cnt x (outs (run g init es)) = cnt x (send_ids es))%nat.
 Proof. exact c08_conservation_lemma. Qed.
 
+(* End to end, lower bound: on the latency alphabet (sends, ticks, drains,
+   latency setters -- no hold / manual delivery, which reschedule) a message is
+   neither handed to its destination nor even in a deliverable queue while the
+   link clock is below (link time at the send) + (its sampled delay).  With
+   c14_delay_in_bounds: never earlier than the minimum latency. *)
+Theorem c14_not_early : forall g es1 d id x p es2,
+  let s := Send d id x false p in
+  Forall c14_event (es1 ++ s :: es2) -> NoDup (send_ids (es1 ++ s :: es2)) ->
+  let r1 := run g init es1 in
+  let r := run g init (es1 ++ s :: es2) in
+  lnow (fin r) < lnow (fin r1) + delay (gfin r1) (fin r1) x ->
+  ~ In id (outs r) /\ ~ In id (ready_a (fin r) ++ ready_b (fin r)).
+Proof. exact c14_not_early_lemma. Qed.
+
+(* End to end, upper bound: as soon as the link clock has reached that instant
+   the message is in its destination's delivery sequence (handed over, or ready
+   for the destination's next turn).  With c14_delay_in_bounds: by the first
+   tick at or after the maximum latency. *)
+Theorem c14_on_time : forall d g es1 id x p es2,
+  let s := Send d id x false p in
+  Forall c14_event (es1 ++ s :: es2) ->
+  let r1 := run_d d g init es1 in
+  let r := run_d d g init (es1 ++ s :: es2) in
+  lnow (fin r1) + delay (gfin r1) (fin r1) x <= lnow (fin r) ->
+  In id (seq_d d (outs r) (fin r)).
+Proof. exact c14_on_time_lemma. Qed.
+
 (* Non-vacuity; the default configuration read from config.rs satisfies lmin <= lmax. *)
 Definition gdef := {| lmin := default_min_latency_ms * ms; lmax := default_max_latency_ms * ms |}.
 Definition hfifo := [Send AB 1 3 false false; Tick ms; Send AB 2 2 false false; Tick (5 * ms); Drain true].
@@ -89,10 +116,14 @@ Example c14_nonvacuous :
   lmin gdef <= lmax gdef /\
   Forall c14_event hfifo /\ NoDup (send_ids hfifo) /\
   outs (run_d AB gdef init hfifo) = [1; 2] /\
-  delay gdef init 1000 = lmax gdef.
+  delay gdef init 1000 = lmax gdef /\
+  (* message 2 (sent at 1 ms with 2 ms of delay): not yet out after 1 more ms, out after 5 *)
+  (let r := run gdef init [Send AB 1 3 false false; Tick ms; Send AB 2 2 false false; Tick ms; Drain true] in
+   lnow (fin r) < ms + delay gdef (fin (run gdef init [Send AB 1 3 false false; Tick ms])) 2 /\ ~ In 2 (outs r)).
 Proof.
   split; [vm_compute; discriminate|]. split; [repeat constructor|].
-  split; [repeat constructor; cbn; intuition discriminate|]. split; reflexivity.
+  split; [repeat constructor; cbn; intuition discriminate|]. split; [reflexivity|]. split; [reflexivity|].
+  vm_compute. split; [reflexivity|tauto].
 Qed.
 
 Print Assumptions c14_delay_in_bounds.
@@ -104,4 +135,6 @@ Print Assumptions c14_override_persists.
 Print Assumptions c14_global_max.
 Print Assumptions c14_fifo_equal_latency.
 Print Assumptions c14_delivered.
+Print Assumptions c14_not_early.
+Print Assumptions c14_on_time.
 Print Assumptions c14_nonvacuous.
